@@ -357,3 +357,187 @@ Proof.
           (app_assoc ((((fn ++ le32 mt) ++ [0; 0]) ++ O) ++ date)).
   rewrite skipn_app_exact by (rewrite !app_length, Hf, LO, Hd, LT; reflexivity). reflexivity.
 Qed.
+
+(* ------------------------------------------------------------------ observed inputs in range *)
+(* clock readings are 10-digit times below 2^31 (with room for the increments of Stampfile), draws are < 4096 *)
+Definition in_range (q : req) : Prop :=
+  1000000000 <= q_nowA q /\ 1000000000 <= q_nowB q /\
+  q_nowA q + lenZ (q_rnds q) < 2147483648 /\ q_nowB q + lenZ (q_rnds q) < 2147483648 /\
+  Forall (fun r => 0 <= r < 4096) (q_rnds q).
+
+Lemma post_names role u b q u' b' o t1 r1 t2 r2 : in_range q -> post_facts role u b q u' b' o t1 r1 t2 r2 ->
+  1000000000 <= t1 < 2147483648 /\ 1000000000 <= t2 < 2147483648 /\ 0 <= r2 < 4096 /\
+  o_fn o = mk_name 77 t2 r2 /\ cprefix (o_fn o) = stamp_name t2 r2.
+Proof.
+  intros (HA & HB & HA' & HB' & HR) F.
+  destruct (pf_stamp1 _ _ _ _ _ _ _ _ _ _ _ F) as (rest & S1 & fs2 & rest2 & S2).
+  unfold lenZ in *.
+  destruct (stamp_range (q_rnds q) (b_files b) (q_nowA q) t1 r1 rest ltac:(lia) HA' S1) as (A1 & A2 & A3 & A4).
+  assert (Hlen : (length rest <= length (q_rnds q))%nat) by lia.
+  destruct (stamp_range rest fs2 (q_nowB q) t2 r2 rest2 ltac:(lia) ltac:(lia) S2) as (B1 & B2 & B3 & B4).
+  assert (T1 : 1000000000 <= t1 < 2147483648) by lia.
+  assert (T2 : 1000000000 <= t2 < 2147483648) by lia.
+  assert (R2 : 0 <= r2 < 4096). { rewrite Forall_forall in HR. apply HR. apply A4. exact B3. }
+  split; [exact T1|]. split; [exact T2|]. split; [exact R2|].
+  assert (E : o_fn o = mk_name 77 t2 r2).
+  { rewrite (pf_fn _ _ _ _ _ _ _ _ _ _ _ F). apply fn_second_stamp; assumption. }
+  split; [exact E|]. rewrite E, cprefix_mk_name, stamp_name_body by exact T2. reflexivity.
+Qed.
+
+(* ------------------------------------------------------------------ dates: Cdatemd is always 5 characters in the range of times *)
+Definition md_of_day (d : Z) : list Z :=
+  let '(y, m, dd) := civil d in
+  let s := print_dec m ++ [47] ++ two dd in
+  if (length s =? 4)%nat then 32 :: s else s.
+
+Lemma cdatemd_day t : cdatemd t = md_of_day ((t + TZ_OFFSET) / 86400).
+Proof. reflexivity. Qed.
+
+Definition md5_ok (i : Z) : bool := (length (md_of_day (11574 + i)) =? 5)%nat.
+
+Lemma md5_sweep : forallb md5_ok (zrange (Z.to_nat 13290)) = true.
+Proof. vm_compute. reflexivity. Qed.
+
+Lemma cdatemd_length t : 1000000000 <= t < 2147483648 -> length (cdatemd t) = 5%nat.
+Proof.
+  intros H. rewrite cdatemd_day. unfold TZ_OFFSET.
+  set (d := (t + 28800) / 86400).
+  assert (Hd : 0 <= d - 11574 < Z.of_nat (Z.to_nat 13290)) by (rewrite Z2Nat.id by lia; subst d; lia).
+  pose proof (sweep md5_ok _ md5_sweep _ Hd) as S. unfold md5_ok in S.
+  replace (11574 + (d - 11574)) with d in S by lia. apply Nat.eqb_eq in S. exact S.
+Qed.
+
+Lemma date_field t1 t2 : 1000000000 <= t1 < 2147483648 -> 1000000000 <= t2 < 2147483648 ->
+  copy_into (copy_into (repeat 0 6) (cdatemd t1)) (cdatemd t2) = fixlen 6 (cdatemd t2).
+Proof.
+  intros H1 H2. rewrite copy_into_zeros. apply copy_into_twice. rewrite !cdatemd_length by assumption. reflexivity.
+Qed.
+
+(* ------------------------------------------------------------------ theorems about one post *)
+Lemma file_content role u b q u' b' o : in_range q -> post_on role u b q = Ok (u', b', o) ->
+  let name := cprefix (o_fn o) in
+  fexists (b_files b) name = false /\
+  lookup name (b_files b') =
+    Some (header u b (tn_safe_strip role (full_title (q_class q) (q_title q))) (q_nowH q)
+          ++ process_lines (q_lines q) ++ signature (q_ip q) ++ url_line b (o_fn o)) /\
+  (forall n, n <> name -> lookup n (b_files b') = lookup n (b_files b)).
+Proof.
+  intros R H name. destruct (post_on_inv _ _ _ _ _ _ _ H) as (t1 & r1 & t2 & r2 & F).
+  destruct (post_names _ _ _ _ _ _ _ _ _ _ _ R F) as (_ & _ & _ & _ & E).
+  subst name. rewrite E.
+  split; [exact (pf_fresh2 _ _ _ _ _ _ _ _ _ _ _ F)|].
+  pose proof (pf_files _ _ _ _ _ _ _ _ _ _ _ F) as P.
+  split.
+  - rewrite P, bytes_eqb_refl. unfold the_text, the_title, article_text. rewrite <- !app_assoc. reflexivity.
+  - intros n Hn. rewrite P, bytes_eqb_neq by congruence. reflexivity.
+Qed.
+
+Lemma header_fields role u b q u' b' o : in_range q -> post_on role u b q = Ok (u', b', o) ->
+  exists t2 r2, 1000000000 <= t2 < 2147483648 /\ 0 <= r2 < 4096 /\
+    o_fn o = mk_name 77 t2 r2 /\
+    let e := o_entry o in
+    firstn 28 e = mk_name 77 t2 r2 /\
+    firstn 4 (skipn 28 e) = le32 (q_mtime q) /\
+    firstn 14 (skipn 34 e) = fixlen 14 (u_id u) /\
+    firstn 6 (skipn 48 e) = fixlen 6 (cdatemd t2) /\
+    firstn 65 (skipn 54 e) = fixlen 65 (tn_safe_strip role (full_title (q_class q) (q_title q))) /\
+    skipn 119 e = repeat 0 9.
+Proof.
+  intros R H. destruct (post_on_inv _ _ _ _ _ _ _ H) as (t1 & r1 & t2 & r2 & F).
+  destruct (post_names _ _ _ _ _ _ _ _ _ _ _ R F) as (T1 & T2 & R2 & E & _).
+  exists t2, r2. split; [exact T2|]. split; [exact R2|]. split; [exact E|].
+  intros e. subst e. rewrite (pf_entry _ _ _ _ _ _ _ _ _ _ _ F), date_field by assumption. rewrite E.
+  apply entry_fields.
+  - unfold mk_name. apply fixlen_length.
+  - apply fixlen_length.
+Qed.
+
+(* the stored title is the leading bytes of "[class] title" (tag dropped for authors who may not use it) *)
+Lemma stored_title_prefix role cls title :
+  firstn 65 (fixlen 65 (tn_safe_strip role (full_title cls title))) = fixlen 65 (tn_safe_strip role (full_title cls title)) /\
+  firstn (Nat.min 65 (length (tn_safe_strip role (full_title cls title)))) (fixlen 65 (tn_safe_strip role (full_title cls title)))
+    = firstn 65 (tn_safe_strip role (full_title cls title)) /\
+  (tn_safe_strip role (full_title cls title) = full_title cls title \/
+   (role = false /\ full_title cls title = TN_ANNOUNCE_BIG5 ++ tn_safe_strip role (full_title cls title))).
+Proof.
+  set (T := tn_safe_strip role (full_title cls title)).
+  split; [apply firstn_all2; rewrite fixlen_length; lia|]. split.
+  - unfold fixlen. rewrite firstn_app. rewrite firstn_firstn.
+    replace (Nat.min (Nat.min 65 (length T)) 65) with (Nat.min 65 (length T)) by lia.
+    rewrite firstn_length. replace (Nat.min 65 (length T) - Nat.min 65 (length T))%nat with O by lia.
+    rewrite firstn_O, app_nil_r.
+    destruct (Nat.le_gt_cases (length T) 65).
+    + rewrite Nat.min_r by lia. rewrite !firstn_all2 by lia. reflexivity.
+    + rewrite Nat.min_l by lia. reflexivity.
+  - subst T. unfold tn_safe_strip. change ALLOW_FREE_TN_ANNOUNCE with false. cbn [orb].
+    destruct role; cbn [orb]; [left; reflexivity|].
+    destruct (is_tn_announce (full_title cls title)) eqn:E; cbn [negb]; [|left; reflexivity].
+    right. split; [reflexivity|]. unfold is_tn_announce in E.
+    revert E. generalize (full_title cls title). generalize TN_ANNOUNCE_BIG5.
+    induction l as [|x p IH]; intros s E; [reflexivity|].
+    destruct s as [|y s]; cbn [has_prefix] in E; [discriminate|].
+    apply andb_true_iff in E. destruct E as [E1 E2]. apply Z.eqb_eq in E1. subst y.
+    cbn [length skipn app]. f_equal. apply IH. exact E2.
+Qed.
+
+Lemma total_after role u b q u' b' o : lenZ (b_dir b) < 2147483648 * 128 - 128 -> post_on role u b q = Ok (u', b', o) ->
+  b_total b' = lenZ (b_dir b') / 128 /\ b_total b' = lenZ (b_dir b) / 128 + 1.
+Proof.
+  intros B H. destruct (index_grows _ _ _ _ _ _ _ H) as (L & D & _ & _).
+  destruct (post_on_inv _ _ _ _ _ _ _ H) as (t1 & r1 & t2 & r2 & F).
+  rewrite (pf_total _ _ _ _ _ _ _ _ _ _ _ F). change ptttype.FILE_HEADER_RAW_SZ with 128.
+  assert (E : lenZ (b_dir b') = lenZ (b_dir b) / 128 * 128 + 128).
+  { rewrite D. unfold lenZ. rewrite app_length, firstn_length, L.
+    assert (0 <= Z.of_nat (length (b_dir b))) by lia.
+    rewrite Nat.min_l by lia. lia. }
+  assert (P : 0 <= lenZ (b_dir b)) by (unfold lenZ; lia).
+  rewrite E. rewrite wrap32_small by lia. split; lia.
+Qed.
+
+Lemma numposts_after role u b q u' b' o : post_on role u b q = Ok (u', b', o) ->
+  u_numposts u' = (u_numposts u + 1) mod 4294967296 /\
+  (0 <= u_numposts u < 4294967295 -> u_numposts u' = u_numposts u + 1) /\
+  u_id u' = u_id u /\ u_nick u' = u_nick u /\ u_priv u' = u_priv u.
+Proof.
+  intros H. destruct (post_on_inv _ _ _ _ _ _ _ H) as (t1 & r1 & t2 & r2 & F).
+  rewrite (pf_user _ _ _ _ _ _ _ _ _ _ _ F). cbn [u_numposts u_id u_nick u_priv]. unfold wrapu32.
+  split; [reflexivity|]. split; [intros B; apply Z.mod_small; lia|]. repeat split.
+Qed.
+
+Lemma fetch_after role u b q u' b' o : in_range q -> post_on role u b q = Ok (u', b', o) ->
+  fetch b' (o_aid o) =
+    Ok (Some (header u b (tn_safe_strip role (full_title (q_class q) (q_title q))) (q_nowH q)
+              ++ process_lines (q_lines q) ++ signature (q_ip q) ++ url_line b (o_fn o))).
+Proof.
+  intros R H. destruct (file_content _ _ _ _ _ _ _ R H) as (_ & C & _).
+  destruct (post_on_inv _ _ _ _ _ _ _ H) as (t1 & r1 & t2 & r2 & F).
+  destruct (post_names _ _ _ _ _ _ _ _ _ _ _ R F) as (_ & T2 & R2 & E & _).
+  unfold fetch. rewrite (pf_aid _ _ _ _ _ _ _ _ _ _ _ F), E, aid_roundtrip by assumption.
+  rewrite <- E. rewrite C. rewrite E. unfold mk_name, fixlen. cbn [firstn app nth]. reflexivity.
+Qed.
+
+(* ------------------------------------------------------------------ no crash *)
+Lemma post_on_no_crash role u b q : post_on role u b q <> Crash.
+Proof.
+  unfold post_on. destruct (stamp (b_files b) (q_nowA q) (q_rnds q)) as [[[t1 r1] rest]|]; [|discriminate].
+  cbv zeta. match goal with |- context [stamp ?fs (q_nowB q) rest] => destruct (stamp fs (q_nowB q) rest) as [[[t2 r2] rest2]|] end; discriminate.
+Qed.
+
+Lemma post_no_crash st q : post st q <> Crash.
+Proof.
+  unfold post. pose proof (post_on_no_crash (allowed_by_role (q_user q) (nth (Z.to_nat (q_user q)) (s_users st) dflt_user) (nth (Z.to_nat (q_board q)) (s_boards st) dflt_board))
+    (nth (Z.to_nat (q_user q)) (s_users st) dflt_user) (nth (Z.to_nat (q_board q)) (s_boards st) dflt_board) q) as N.
+  destruct (post_on _ _ _ q) as [[[u' b'] o]| |]; [discriminate|contradiction|discriminate].
+Qed.
+
+Lemma post_seq_no_crash qs : forall st, post_seq st qs <> Crash.
+Proof.
+  induction qs as [|q qs IH]; intros st; cbn [post_seq]; [discriminate|].
+  pose proof (post_no_crash st q) as N. destruct (post st q) as [[st' o]| |]; [|contradiction|discriminate].
+  pose proof (IH st') as N'. destruct (post_seq st' qs) as [[st'' os]| |]; [discriminate|contradiction|discriminate].
+Qed.
+
+(* the only failure of the model is "the observed stream of random draws ended": a fresh first name suffices *)
+Lemma stamp_first_fresh fs now r rest : fexists fs (stamp_name (wrap32 (now + 1)) r) = false ->
+  stamp fs now (r :: rest) = Some (wrap32 (now + 1), r, rest).
+Proof. intros H. cbn [stamp]. rewrite H. reflexivity. Qed.
